@@ -4,7 +4,7 @@ use crate::iso::guarded;
 use serde_json::{json, Value};
 use std::str::FromStr;
 
-const TOKS: [&str; 4] = ["a", "d41d8cd98f00b204e9800998ecf8427e", "pool/main/f/foo_1.0-1.dsc", "~+.é日"];
+const TOKS: [&str; 8] = ["a", "d41d8cd98f00b204e9800998ecf8427e", "pool/main/f/foo_1.0-1.dsc", "~+.é日", "0", "-", "a,b;c:d", "UPPER_lower.123%7E[x]"];
 const INTS: [&str; 4] = ["0", "1", "2147483647", "9223372036854775808"];
 const URLS: [&str; 3] = ["https://salsa.debian.org/jelmer/deb822-lossless.git", "lp:foo", "git://x.example/~u/r?a=b"];
 const BR: [&str; 2] = ["main", "debian/sid"];
@@ -101,8 +101,8 @@ pub fn run(case: &Value, _seed: u64) -> Outcome {
             use dep3::{Origin, OriginCategory};
             let cat = [None, Some(OriginCategory::Backport), Some(OriginCategory::Vendor), Some(OriginCategory::Upstream), Some(OriginCategory::Other)][f[0]];
             let t = ["abc123", "https://x.example/c/1", "1.2.3", "é"][f[2] - 1].to_string();
-            let origin = if f[1] == 1 { Origin::Commit(t) } else { Origin::Other(t) };
-            let text = format!("{}{}", cat.map(|c| format!("{}, ", c)).unwrap_or_default(), origin);
+            let origin = if f[1] == 1 { Origin::Commit(t) } else if f[1] == 0 { Origin::Other(String::new()) } else { Origin::Other(t) };
+            let text = if f[1] == 0 { cat.map(|c| c.to_string()).unwrap_or_default() } else { format!("{}{}", cat.map(|c| format!("{}, ", c)).unwrap_or_default(), origin) };
             let doc = format!("Origin: {}\nAuthor: A\n", text);
             o.evals += 1;
             match guarded("dep3::lossy::PatchHeader::from_str", || dep3::lossy::PatchHeader::from_str(&doc)) {
